@@ -373,7 +373,7 @@ fn c18(ctx: &mut Ctx, w: &World, st: &St, t: &PTx, _params: &Params, fin: &Finis
     for (i, variant) in &st.m.inputs {
         match &w.utxos[*i].0.owner {
             Owner::Native(n) => needs.push((w.native[*n].hash().to_bytes(), *variant >= 1, format!("input {}", i))),
-            Owner::Plutus(p) => needs.push((w.plutus[*p].hash().to_bytes(), *variant == 1 || *variant == 3, format!("input {}", i))),
+            Owner::Plutus(p) => needs.push((w.plutus[*p].hash().to_bytes(), *variant == 1 || *variant == 3 || *variant == 4, format!("input {}", i))),
             _ => {}
         }
     }
@@ -442,7 +442,7 @@ fn c18(ctx: &mut Ctx, w: &World, st: &St, t: &PTx, _params: &Params, fin: &Finis
     let mut want_datums: BTreeSet<Vec<u8>> = BTreeSet::new();
     for (i, variant) in &st.m.inputs {
         if let Owner::Plutus(_) = &w.utxos[*i].0.owner {
-            if *variant == 0 {
+            if *variant == 0 || *variant == 4 {
                 want_datums.insert(w.datums[*i % 3].to_bytes());
             }
         }
@@ -524,6 +524,17 @@ fn c16(ctx: &mut Ctx, _w: &World, _st: &St, _params: &Params, _method: Method, f
         let cl = tbr.clone();
         if let Ok(Ok(tx)) = crate::engine::guard(|| cl.build_tx_unsafe()) {
             variants.push((format!("seed {} clone", seed), tx.to_bytes()));
+        }
+    }
+    // containers created when the builder was set up keep the order they were born with: the whole
+    // builder is set up and balanced again under other seeds (as another process would)
+    for seed in 1..4u64 {
+        verif_hooks::set_hash_seed(seed);
+        let again = finish(_w, _st, _params, _method, ctx, false);
+        if let Some(Ok(tx)) = &again.tx {
+            variants.push((format!("builder set up again under seed {}", seed), tx.to_bytes()));
+        } else {
+            ctx.violation("C16/rebuild-fails".to_string(), format!("setting the builder up again under hash seed {} does not produce the transaction ; {}", seed, what()));
         }
     }
     verif_hooks::set_hash_seed(0);
